@@ -200,6 +200,11 @@ def main():
 
     with open(OUT, "w") as f:
         f.write("".join(parts))
+    try:  # cosmetic only
+        import subprocess
+        subprocess.run(["gofmt", "-w", OUT], check=False)
+    except OSError:
+        pass
 
 
 if __name__ == "__main__":
